@@ -13,6 +13,7 @@ import (
 	"fmt"
 	"math/big"
 	"os"
+	"runtime"
 	"sort"
 	"strings"
 
@@ -39,16 +40,31 @@ type jcVec struct {
 	Static bool   `json:"static"`
 	Cls    int    `json:"cls"`
 	Height int    `json:"height"`
+	L1     int    `json:"l1"`
+	L2     int    `json:"l2"`
+	L3     int    `json:"l3"`
+	Again  bool   `json:"again"`
+}
+
+type jcStored struct {
+	Header []int   `json:"header"`
+	Area   [][]int `json:"area"`
 }
 
 type jcExp struct {
-	Err       bool    `json:"err"`
-	Bytes     []int   `json:"bytes"`
-	Word      []int   `json:"word"`
-	Header    []int   `json:"header"`
-	Area      [][]int `json:"area"`
-	Outcome   string  `json:"outcome"`
-	Underflow bool    `json:"underflow"`
+	Err        bool     `json:"err"`
+	Bytes      []int    `json:"bytes"`
+	Word       []int    `json:"word"`
+	Header     []int    `json:"header"`
+	Area       [][]int  `json:"area"`
+	Outcome    string   `json:"outcome"`
+	Underflow  bool     `json:"underflow"`
+	AllocBound int      `json:"allocBound"`
+	A1         jcStored `json:"a1"`
+	B1         jcStored `json:"b1"`
+	A2         jcStored `json:"a2"`
+	RecA       [][]int  `json:"reca"`
+	RecB       [][]int  `json:"recb"`
 }
 
 type jcLine struct {
@@ -145,9 +161,10 @@ func renderChanges(c *vm.StorageChanges) string {
 }
 
 type jcRunner struct {
-	out  []jcMismatch
-	fees map[string]uint64 // "op/fork/static" -> fee observed
-	work []string
+	out         []jcMismatch
+	fees        map[string]uint64 // "op/fork/static" -> fee observed
+	work        []string
+	memAllocMax uint64
 }
 
 func (r *jcRunner) miss(comp, f string, a ...interface{}) {
@@ -274,6 +291,72 @@ func (r *jcRunner) vr(v jcVec, x jcExp) {
 	}
 }
 
+// vrseq: VRJNAL a, VRJNAL b, [assign a, VRJNAL a] in one transaction: every record keeps the content of its own moment
+func (r *jcRunner) vrseq(v jcVec, x jcExp) {
+	sa, sb := big.NewInt(5), big.NewInt(6)
+	a := evmx.NewAsm()
+	a.PushBytes(jcType[:]).PushBig(sa).Op(vm.VRJNAL)
+	a.PushBytes(jcType[:]).PushBig(sb).Op(vm.VRJNAL)
+	if v.Again {
+		store := func(k common.Hash, w []int) {
+			a.PushBytes(common.LeftPadBytes(toBytes(w), 32)).PushBytes(k[:]).Op(vm.SSTORE)
+		}
+		store(common.BigToHash(sa), x.A2.Header)
+		for i, w := range x.A2.Area {
+			store(dataSlot(sa, i), w)
+		}
+		a.PushBytes(jcType[:]).PushBig(sa).Op(vm.VRJNAL)
+	}
+	e, res := jcExec("London", tail(a), func(e *evmx.Env) {
+		for _, p := range []struct {
+			slot *big.Int
+			st   jcStored
+			name string
+		}{{sa, x.A1, "a"}, {sb, x.B1, "b"}} {
+			e.State.SetState(jcAcct, common.BigToHash(p.slot), common.BytesToHash(toBytes(p.st.Header)))
+			for i, w := range p.st.Area {
+				e.State.SetState(jcAcct, dataSlot(p.slot, i), common.BytesToHash(toBytes(w)))
+			}
+			_ = e.EVM.Tracer().SaveStateKey(jcAcct, nil, uint256.MustFromBig(p.slot), nil, jcType, common.Hash{}, []byte(p.name))
+		}
+	}, 8_000_000, nil)
+	desc := fmt.Sprintf("VRJNAL a (%d bytes), VRJNAL b (%d bytes)", v.L1, v.L2)
+	if v.Again {
+		desc += fmt.Sprintf(", a reassigned (%d bytes), VRJNAL a", v.L3)
+	}
+	if res.Panic != "" {
+		r.miss("jc.panic", "%s panicked: %s", desc, res.Panic)
+		return
+	}
+	if res.Err != nil || !markerSet(e) {
+		r.miss("jc.value", "%s failed on well-formed strings: %v", desc, res.Err)
+		return
+	}
+	want := func(recs [][]int) string {
+		s := "0:["
+		for _, c := range recs {
+			s += hex.EncodeToString(toBytes(c)) + ","
+		}
+		return s + "] "
+	}
+	sc := e.EVM.Tracer().StateChanges()
+	for _, p := range []struct {
+		name string
+		recs [][]int
+	}{{"a", x.RecA}, {"b", x.RecB}} {
+		got := renderChanges(sc.Variable(jcAcct, p.name))
+		if w := want(p.recs); got != w {
+			if len(got) > 260 {
+				got = got[:260] + "..."
+			}
+			if len(w) > 260 {
+				w = w[:260] + "..."
+			}
+			r.miss("jc.value", "%s: variable %s has records %s, the contents at the moments of journaling were %s", desc, p.name, got, w)
+		}
+	}
+}
+
 // memory pattern byte (never zero)
 func memPat(i int) byte { return byte(0x41 + i%0x3e) }
 
@@ -331,12 +414,24 @@ func (r *jcRunner) mem(v jcVec, x jcExp, workBound int) {
 		f.emit(a)
 		// the instruction must not have changed memory size: store MSIZE
 		a.Op(vm.MSIZE).Push(0x98).Op(vm.SSTORE)
+		var m0, m1 runtime.MemStats
+		runtime.ReadMemStats(&m0)
 		e, res := jcExec("London", tail(a), func(e *evmx.Env) {
 			if f.nest {
 				_ = e.EVM.Tracer().SaveStateKey(jcAcct, nil, uint256.NewInt(7), nil, jcPType, common.Hash{}, []byte("parent"))
 			}
 		}, 3_000_000, nil)
+		runtime.ReadMemStats(&m1)
 		desc := fmt.Sprintf("%s with memory size %d, name pointer %v, length word %v", f.name, v.Msize, ptr, ln)
+		// C20: whatever the length word says, the run (environment, program, instruction) allocates a bounded amount (this command is single-threaded)
+		if alloc := m1.TotalAlloc - m0.TotalAlloc; x.AllocBound > 0 {
+			if alloc > r.memAllocMax {
+				r.memAllocMax = alloc
+			}
+			if alloc > uint64(x.AllocBound) {
+				r.miss("jc.work", "%s: the run allocated %d bytes for the flat fee (bound %d)", desc, alloc, x.AllocBound)
+			}
+		}
 		if res.Panic != "" {
 			r.miss("jc.panic", "%s panicked: %s", desc, res.Panic)
 			continue
@@ -584,6 +679,8 @@ func codecCmd(args []string) int {
 			r.vrbig(l.V)
 		case "stk":
 			r.stk(l.V, l.E)
+		case "vrseq":
+			r.vrseq(l.V, l.E)
 		}
 	}
 	if *one != "" {
@@ -653,6 +750,9 @@ func codecCmd(args []string) int {
 		}
 	}
 	rep.Fees = r.fees
+	if r.memAllocMax > 0 {
+		r.work = append(r.work, fmt.Sprintf("memory-argument vectors: largest allocation of a run %d bytes", r.memAllocMax))
+	}
 	rep.Work = r.work
 	fmt.Printf("JC-DONE vectors=%d mismatching-components=%d\n", rep.Vectors, len(rep.ByComp))
 	if *out != "" {
